@@ -198,11 +198,18 @@ theorem checked_sub_exact (a b : Nat) (_ha : a < U256) (_hb : b < U256) :
     checkedSub a b = if b ≤ a then some (a - b) else none := by
   simp [checkedSub, subIsChecked]
 
-/-- **CLI totals are exact sums.** Whatever the split between events consumed before and after the
-completion signal (a scheduling choice of `tokio::select!`), the reported total is the exact sum of all
-upload costs, as long as that sum is representable. -/
-theorem cli_summary_exact (l d : List Nat) (h : (l ++ d).sum < U256) :
+/-- the exact sum of the costs is a representable amount -/
+def SumRepresentable (xs : List Nat) : Prop := xs.sum < U256
+
+/-- The full statement for the CLI total — FALSE of the current code (`+=` on `Amount` wraps), see the witness. -/
+def CliSummaryExact : Prop := ∀ l d : List Nat, cliSummary l d = (l ++ d).sum
+
+/-- **CLI totals are exact sums** — under `SumRepresentable`. Whatever the split between events consumed before
+and after the completion signal (a scheduling choice of `tokio::select!`), the reported total is the exact sum of
+all upload costs, as long as that sum is representable. -/
+theorem cli_summary_exact_partial (l d : List Nat) (h : SumRepresentable (l ++ d)) :
     cliSummary l d = (l ++ d).sum := by
+  unfold SumRepresentable at h
   have hacc : cliSummaryAccumulates = true := by decide
   have key : ∀ (xs : List Nat) (acc : Nat), acc + xs.sum < U256 →
       xs.foldl (fun (a x : Nat) => (a + x) % U256) acc = acc + xs.sum := by
@@ -217,6 +224,102 @@ theorem cli_summary_exact (l d : List Nat) (h : (l ++ d).sum < U256) :
   unfold cliSummary
   simp only [hacc, ↓reduceIte, List.sum_append] at h ⊢
   rw [key l 0 (by omega), Nat.zero_add, key d l.sum (by omega)]
+
+/-- Known finding K-s: the running total wraps silently. Two uploads costing 2^256−1 and 1 atto are reported as
+a total of 0 (`tokens_spent += …` is ruint's `wrapping_add`). -/
+theorem cli_summary_wraps_witness : cliSummary [U256 - 1] [1] = 0 ∧ cliSummary [] [U256 - 1, 1] = 0 := by
+  constructor <;> simp [cliSummary, cliSummaryAccumulates, U256]
+
+theorem not_cliSummaryExact : ¬ CliSummaryExact := by
+  intro h
+  have h1 := h [U256 - 1] [1]
+  rw [cli_summary_wraps_witness.1] at h1
+  simp [U256] at h1
+
+/-- The full statement for the cost sums (`data_cost`, `vault_cost`, `register_cost`, `file_cost`, the quote prices):
+the exact sum, or a reported overflow — FALSE of the current code, see the witness. -/
+def CostSumExact : Prop :=
+  ∀ xs : List Nat, (xs.sum < U256 → costSum xs = some xs.sum) ∧ (U256 ≤ xs.sum → costSum xs = none)
+
+theorem foldl_wrapping_exact (xs : List Nat) (acc : Nat) (h : acc + xs.sum < U256) :
+    xs.foldl (fun (a x : Nat) => (a + x) % U256) acc = acc + xs.sum := by
+  induction xs generalizing acc with
+  | nil => simp
+  | cons x xs ih =>
+    simp only [List.foldl_cons, List.sum_cons] at h ⊢
+    rw [Nat.mod_eq_of_lt (by omega), ih (acc + x) (by omega)]
+    omega
+
+/-- **Cost sums are exact** — under `SumRepresentable`. -/
+theorem cost_sum_exact_partial (xs : List Nat) (h : SumRepresentable xs) : costSum xs = some xs.sum := by
+  unfold SumRepresentable at h
+  have := foldl_wrapping_exact xs 0 (by omega)
+  simp [costSum, costSumWith, costSumsChecked, this]
+
+/-- Known finding K-s (same defect at the sums): quotes of 2^256−1 and 1 atto add up to a cost of 0. -/
+theorem cost_sum_wraps_witness : costSum [U256 - 1, 1] = some 0 := by
+  simp [costSum, costSumWith, costSumsChecked, U256]
+
+theorem not_costSumExact : ¬ CostSumExact := by
+  intro h
+  have h1 := (h [U256 - 1, 1]).2 (by simp [U256])
+  rw [cost_sum_wraps_witness] at h1
+  cases h1
+
+/-- The repaired shape (a `checked_add` fold) would satisfy the full statement. -/
+theorem cost_sum_checked_exact (xs : List Nat) :
+    (xs.sum < U256 → costSumWith true xs = some xs.sum) ∧ (U256 ≤ xs.sum → costSumWith true xs = none) := by
+  constructor <;> intro h <;> simp [costSumWith] <;> omega
+
+/-! ### The printed cost lines state the amount in the unit they name -/
+
+theorem fromChars_toChars (ds : List Nat) : fromChars (toChars ds) = ds := by
+  induction ds with
+  | nil => rfl
+  | cons d ds ih =>
+    simp only [fromChars, toChars, List.map_cons] at ih ⊢
+    rw [ih]; simp
+
+theorem atto_line_denotes (n : Nat) : lineDenotes true (printedCost .atto n) n = true := by
+  have hd := toDigits_lt n
+  have hne : toChars (toDigits n) ≠ [] := by rw [Ne, toChars_eq_nil]; exact toDigits_ne_nil n
+  have hemp : (toChars (toDigits n)).isEmpty = false := by simpa [List.isEmpty_iff] using hne
+  simp only [lineDenotes, readNumber, printedCost, splitDot_toChars, Option.getD_none, isDecimal_toChars hd,
+    hemp, fromChars_toChars, ofDigits_toDigits, List.length_nil]
+  simp [isDecimal, fromChars, ofDigits]
+
+theorem tokens_line_denotes (n : Nat) : lineDenotes false (printedCost .tokens n) n = true := by
+  obtain ⟨i, f, hs, hi, hne, hf, hlen, hval⟩ := display_denotes n
+  have hne' : toChars i ≠ [] := by rw [Ne, toChars_eq_nil]; exact hne
+  have hemp : (toChars i).isEmpty = false := by simpa [List.isEmpty_iff] using hne'
+  simp only [lineDenotes, readNumber, printedCost, hs, splitDot_toChars_dot, Option.getD_some,
+    isDecimal_toChars hi, isDecimal_toChars hf, hemp, fromChars_toChars, toChars_length, hlen, hval]
+  simp
+
+/-- **Every cost line of the CLI states the amount in the unit it names**: a line labelled "AttoTokens" shows the
+atto integer, an unlabelled one the value in whole tokens with 18 fractional digits; read that way the printed
+number is exactly the amount (over the regenerated table of ant-cli's cost `println!`s). -/
+theorem printed_cost_denotes (site : String × CostKind × Bool) (hs : site ∈ costPrintSites) (n : Nat) :
+    lineDenotes site.2.2 (printedCost site.2.1 n) n = true := by
+  have hall : costPrintSites.all (fun s => (s.2.1 == CostKind.atto) == s.2.2) = true := by decide
+  have := List.all_eq_true.mp hall site hs
+  obtain ⟨nm, k, l⟩ := site
+  cases k <;> cases l <;> simp at this
+  · exact atto_line_denotes n
+  · exact tokens_line_denotes n
+
+/-- Witness for the lines before the repair (`vault cost` / `vault create` printed `{AttoTokens} AttoTokens`): the
+whole-token rendering of any non-zero amount under the label "AttoTokens" reads 10^18 times too small (5 atto
+shown as `0.000000000000000005 AttoTokens`). -/
+theorem printed_unit_mismatch_witness (n : Nat) (hn : 0 < n) :
+    lineDenotes true (printedCost .tokens n) n = false := by
+  obtain ⟨i, f, hs, hi, hne, hf, hlen, hval⟩ := display_denotes n
+  have hne' : toChars i ≠ [] := by rw [Ne, toChars_eq_nil]; exact hne
+  have hemp : (toChars i).isEmpty = false := by simpa [List.isEmpty_iff] using hne'
+  simp only [lineDenotes, readNumber, printedCost, hs, splitDot_toChars_dot, Option.getD_some,
+    isDecimal_toChars hi, isDecimal_toChars hf, hemp, fromChars_toChars, toChars_length, hlen, hval]
+  simp
+  omega
 
 /-! ## Non-vacuity: concrete instances of the hypotheses and of both outcomes -/
 
@@ -252,4 +355,12 @@ end SafeNet.Props.C16
 #print axioms SafeNet.Props.C16.parse_never_wraps
 #print axioms SafeNet.Props.C16.checked_add_exact
 #print axioms SafeNet.Props.C16.checked_sub_exact
-#print axioms SafeNet.Props.C16.cli_summary_exact
+#print axioms SafeNet.Props.C16.cli_summary_exact_partial
+#print axioms SafeNet.Props.C16.cli_summary_wraps_witness
+#print axioms SafeNet.Props.C16.not_cliSummaryExact
+#print axioms SafeNet.Props.C16.cost_sum_exact_partial
+#print axioms SafeNet.Props.C16.cost_sum_wraps_witness
+#print axioms SafeNet.Props.C16.not_costSumExact
+#print axioms SafeNet.Props.C16.cost_sum_checked_exact
+#print axioms SafeNet.Props.C16.printed_cost_denotes
+#print axioms SafeNet.Props.C16.printed_unit_mismatch_witness
